@@ -18,18 +18,20 @@ inline R poison_value() {
 }
 inline void keep_stores(void *p) { asm volatile("" : : "r"(p) : "memory"); }
 
-struct GenTimeMap {  // T = k * tau^2 + c
+struct GenTimeMap {  // T = k * tau^2 + c ; useT: the backward rule is written in terms of its T argument (valid for tau != 0)
   R k, c;
+  int useT = 0;
   static R &defk() { static R v(1.0); return v; }
   static R &defc() { static R v(0.5); return v; }
-  GenTimeMap() : k(defk()), c(defc()) {}
-  GenTimeMap(R k_, R c_) : k(k_), c(c_) {}
-  GenTimeMap(const GenTimeMap &o) : k(o.k), c(o.c) {}
-  GenTimeMap &operator=(const GenTimeMap &o) { k = o.k; c = o.c; return *this; }
+  static int &defuse() { static int v = 0; return v; }
+  GenTimeMap() : k(defk()), c(defc()), useT(defuse()) {}
+  GenTimeMap(R k_, R c_, int u = 0) : k(k_), c(c_), useT(u) {}
+  GenTimeMap(const GenTimeMap &o) : k(o.k), c(o.c), useT(o.useT) {}
+  GenTimeMap &operator=(const GenTimeMap &o) { k = o.k; c = o.c; useT = o.useT; return *this; }
   ~GenTimeMap() { k = poison_value(); c = poison_value(); keep_stores(this); }
   R toTime(R tau) const { return k * tau * tau + c; }
   R toTau(R T) const { return std::sqrt((T - c) / k); }
-  R backward(R tau, R T, R gradT) const { (void)T; return gradT * (2.0 * k * tau); }
+  R backward(R tau, R T, R gradT) const { if (useT) return gradT * (2.0 * (T - c) / tau); return gradT * (2.0 * k * tau); }
 };
 
 template <int DIM> struct GenSpatialMap {
@@ -43,7 +45,10 @@ template <int DIM> struct GenSpatialMap {
   GenSpatialMap(const GenSpatialMap &o) : mode(o.mode), m0(o.m0), m1(o.m1), b(o.b), q(o.q) {}
   GenSpatialMap &operator=(const GenSpatialMap &o) { mode = o.mode; m0 = o.m0; m1 = o.m1; b = o.b; q = o.q; return *this; }
   ~GenSpatialMap() { m0 = poison_value(); m1 = poison_value(); b = poison_value(); q = poison_value(); keep_stores(this); }
-  int getUnconstrainedDim(int index) const { return (mode == 1 && (index % 2) == 1) ? std::max(1, DIM - 1) : DIM; }
+  int getUnconstrainedDim(int index) const {   // mode 1: reduced at odd waypoint indices, mode 3: reduced at even ones (incl. the first waypoint)
+    if ((mode == 1 && (index % 2) == 1) || (mode == 3 && (index % 2) == 0)) return std::max(1, DIM - 1);
+    return DIM;
+  }
   VX toPhysical(const VX &xi, int index) const {
     (void)index;
     VX p(DIM);
@@ -275,7 +280,7 @@ template <class S, class TM, class SM> struct OptCmds {
     }
     if (c == "opt.tmap") {
       std::string n = vm.next();
-      if constexpr (GEN_TM) { R k = vm.nextVal(), cc = vm.nextVal(); tmaps[n].reset(new TM(k, cc)); }
+      if constexpr (GEN_TM) { R k = vm.nextVal(), cc = vm.nextVal(); int u = vm.more() ? vm.nextInt() : 0; tmaps[n].reset(new TM(k, cc, u)); }
       else tmaps[n].reset(new TM());
       return true;
     }
